@@ -117,14 +117,14 @@ def gen_scenario(seed, opts):
     enabled_fault_kinds = [k for k in ("childexit", "childsig", "callockill", "openr", "readerr", "openw", "writeerr", "closeerr", "forkfail", "execfail", "mkstempfail")
                            if r.below(2)]  # swarm: a random subset per run
     for i in range(ninv):
-        mode = r.pick(["E", "S", "c", "c", "link", "link"])
+        mode = r.pick(["E", "S", "c", "c", "link", "link", "E", "S", "c", "c", "link", "link", "M"])
         if tools == "real":
             mode = r.pick(["c", "link", "S"])
         nin = r.pick([1, 1, 1, 2, 2, 3])
         inputs = []
         for j in range(nin):
             ext = r.pick(["c", "c", "c", "c", "s", "o"])
-            if mode in ("E",):
+            if mode in ("E", "M"):
                 ext = "c"
             kind = r.pick({"c": C_KINDS, "s": S_KINDS, "o": O_KINDS}[ext])
             if r.below(3) == 0 and kind in FAILING_KINDS:  # keep most inputs good so that later steps are reached
@@ -143,7 +143,7 @@ def gen_scenario(seed, opts):
                 if r.below(4) == 0 and "/" not in name:
                     name = "d%d/%s" % (r.below(2), name)
                 ext = name[-1]
-                if mode == "E" and ext != "c":
+                if mode in ("E", "M") and ext != "c":
                     continue
             # within one command two inputs never share a stem: they would be told to produce the same default output
             stem = os.path.basename(name).rsplit(".", 1)[0]
@@ -157,11 +157,13 @@ def gen_scenario(seed, opts):
             use_o = r.below(3) > 0
         elif len(inputs) == 1:
             use_o = r.below(2) == 0
+        elif mode == "M":
+            use_o = False             # several -M inputs into one -o file: not generated (the statement is silent about it)
         else:
             use_o = r.below(12) == 0  # the driver must refuse this combination
         if use_o:
             c = r.below(10)
-            out = "out%d.%s" % (i, {"E": "i", "S": "s", "c": "o", "link": "exe"}[mode])
+            out = "out%d.%s" % (i, {"E": "i", "S": "s", "c": "o", "link": "exe", "M": "dm"}[mode])
             if c == 0:
                 out = "nodir%d/x.out" % i  # unwritable: directory does not exist
             elif c == 1:
@@ -169,7 +171,16 @@ def gen_scenario(seed, opts):
             elif c == 2:
                 out = "outdir%d" % i       # unwritable: is a directory
                 files[out + "/keep"] = "text"
-        argv = {"E": ["-E"], "S": ["-S"], "c": ["-c"], "link": []}[mode]
+        argv = {"E": ["-E"], "S": ["-S"], "c": ["-c"], "link": [], "M": ["-M"]}[mode]
+        nc = sum(1 for n, _ in inputs if n.endswith(".c"))
+        if mode in ("c", "S", "link") and tools == "stub" and r.below(6) == 0 and (nc == 1 or not use_o):
+            argv.append("-MD")            # dependency files are outputs too
+            if nc == 1 and r.below(3) == 0:
+                argv += ["-MF", "dep%d.d" % i]
+            if r.below(2):
+                argv.append("-MP")
+        if mode == "M" and r.below(2):
+            argv += r.pick([["-MP"], ["-MT", "tgt%d" % i], ["-MF", "depm%d.d" % i]])
         if r.below(4) == 0:
             argv.append("-fPIC" if r.below(2) else "-O2")
         argv += [n for n, _ in inputs]
@@ -182,7 +193,7 @@ def gen_scenario(seed, opts):
             if k == "missing":
                 continue
             files[n] = k
-        inv = {"argv": argv, "stdout": "devfull" if (mode == "E" and not use_o and r.below(8) == 0) else "file", "faults": []}
+        inv = {"argv": argv, "stdout": "devfull" if (mode in ("E", "M") and not use_o and "-MF" not in argv and r.below(8) == 0) else "file", "faults": []}
         invs.append(inv)
     # concurrent invocations have disjoint requested outputs (two commands told to write the same file
     # interfere legitimately); everything else -- directory, /tmp, inputs -- is shared on purpose
@@ -198,6 +209,8 @@ def gen_scenario(seed, opts):
         if req & seen and len(m["inputs"]) == 1 and not m["refused"] and m["mode"] in ("S", "c", "E"):
             inv["argv"] = [a for k, a in enumerate(inv["argv"]) if not (a == "-o" or a.startswith("-o") or (k > 0 and inv["argv"][k - 1] == "-o"))]
             inv["argv"] += ["-o", "own%d.%s" % (i, {"S": "s", "c": "o", "E": "i"}[m["mode"]])]
+            if "-MD" in inv["argv"] and "-MF" not in inv["argv"]:
+                pass  # the dependency file follows -o (own<i>.d)
             req = set(model(inv, files)["requested"])
         if req & seen:
             continue
@@ -286,6 +299,8 @@ def model(inv, files):
     mode = "link"
     out = None
     inputs = []
+    md = False
+    mf = None
     i = 0
     while i < len(argv):
         a = argv[i]
@@ -293,14 +308,25 @@ def model(inv, files):
             out = argv[i + 1]
             i += 2
             continue
-        if a.startswith("-o"):
+        if a in ("-MF", "-MT"):
+            if a == "-MF":
+                mf = argv[i + 1]
+            i += 2
+            continue
+        if a == "-MD":
+            md = True
+        elif a == "-M":
+            mode = "M"
+        elif a == "-MP":
+            pass
+        elif a.startswith("-o"):
             out = a[2:]
         elif a == "-E":
-            mode = "E"
+            mode = "E" if mode != "M" else mode
         elif a == "-S":
-            mode = "S" if mode != "E" else mode
+            mode = "S" if mode not in ("E", "M") else mode
         elif a == "-c":
-            mode = "c" if mode not in ("E", "S") else mode
+            mode = "c" if mode not in ("E", "S", "M") else mode
         elif not a.startswith("-"):
             inputs.append(a)
         i += 1
@@ -346,6 +372,15 @@ def model(inv, files):
             steps.append("ld#1")
         if mode == "E" and out:
             requested.append(out)
+        if mode == "M" and (mf or out) and inputs:
+            requested.append(mf or out)
+        if md and mode != "M":
+            # -MD: one dependency file per C translation unit, named after -MF, else after -o, else after the input (always in the cwd)
+            for tu in tus:
+                if tu["ext"] == ".c":
+                    d = mf or base(out or tu["input"], ".d")
+                    if d not in requested:
+                        requested.append(d)
         for tu in tus:
             if tu["output"] and tu["output"] not in requested:
                 requested.append(tu["output"])
@@ -869,7 +904,7 @@ def check(env, wdir, scn, res, solo, refs, which):
         byte_exact = scn["tools"] == "stub" or m["mode"] in ("E", "S")
         if m["refused"]:
             must_fail.append(("driver", "-o with several inputs and -c/-S/-E must be refused"))
-        if inv["stdout"] == "devfull" and m["mode"] == "E" and not m["out"]:
+        if inv["stdout"] == "devfull" and ((m["mode"] == "E" and not m["out"]) or (m["mode"] == "M" and not m["requested"])):
             ok_tus = [c for c in st["children"] if c["label"].startswith("cc1")]
             if ok_tus and not failed:
                 must_fail.append(("cc1", "standard output is /dev/full: the preprocessed text cannot be written"))
